@@ -11,13 +11,15 @@ pub mod tests;
 // ================================================================================================
 
 /// The number of unique transition constraints in the input/output operations.
-pub const NUM_CONSTRAINTS: usize = 1;
+pub const NUM_CONSTRAINTS: usize = 2;
 
 /// The degrees of constraints in the individual constraints of the input/output ops.
 pub const CONSTRAINT_DEGREES: [usize; NUM_CONSTRAINTS] = [
     // Given it is a degree 7 operation, 7 is added to all the individual constraints
     // degree.
     8, // constraint for SDEPTH operation.
+    5, // constraint for the address update of the MSTREAM and PIPE operations (the sum of the
+    // two degree 5 flags is a degree 4 expression).
 ];
 
 // INPUT/OUTPUT OPERATIONS TRANSITION CONSTRAINTS
@@ -46,6 +48,12 @@ pub fn enforce_constraints<E: FieldElement>(
 
     index += enforce_sdepth_constraint(frame, result, op_flag.sdepth());
 
+    index += enforce_stream_address_constraint(
+        frame,
+        &mut result[index..],
+        op_flag.mstream() + op_flag.pipe(),
+    );
+
     index
 }
 
@@ -59,6 +67,22 @@ pub fn enforce_sdepth_constraint<E: FieldElement>(
 ) -> usize {
     // Enforces the depth of the stack is equal to the top element in the next frame.
     result[0] = op_flag * are_equal(frame.stack_item_next(0), frame.stack_depth());
+
+    1
+}
+
+/// Enforces the address update of the MSTREAM and PIPE operations. Both operations move two words
+/// to the memory region starting at the address in the 13th stack item and increment this address
+/// by two. Therefore, the following constraint is enforced:
+/// - The 13th stack item in the next frame is the one in the current frame plus two.
+///   s12` - (s12 + 2) = 0.
+pub fn enforce_stream_address_constraint<E: FieldElement>(
+    frame: &EvaluationFrame<E>,
+    result: &mut [E],
+    op_flag: E,
+) -> usize {
+    result[0] =
+        op_flag * are_equal(frame.stack_item_next(12), frame.stack_item(12) + E::from(2u32));
 
     1
 }
